@@ -462,4 +462,9 @@ def replay(ctx, obj):
     parts = res["data"].split(b"\n")
     print("complete lines: %d, fragment: %d bytes, acknowledged: %d, emitted by the program: %d, ran to end: %s"
           % (len(parts) - 1, len(parts[-1]), res["acks"], len(sk), res["done"]))
+    if case.get("kind") == "self" and res["done"]:
+        ctx.violation("the program ran to its end but the file object never reached the point '%s' of message %d: "
+                      "it did not receive one write followed by one flush for each of the %d messages"
+                      % (case["kill"]["at"], case["kill"]["n"], len(sk)), case)
+        return
     oracle(ctx, case, sk, res)
